@@ -30,7 +30,7 @@ type c13MulOut struct {
 // With shadow, the receiver's Round2 is also predicted: a second AdditiveOTReceiver fed with the same random bytes
 // and the same hash gives the additive result for the (altered) message; the model's ot.mult_recv_check gives the
 // check outcome; the share is sum result[i][0]*gadget[i] (big.Int). With deep, the additive step itself is
-// predicted by the model's mask loops (ot.masked_pad) and compared with the shadow.
+// predicted by the model (ot.additive_recv_class) and compared with the shadow.
 func (e *c13Env) multiply(cs c13Case, shadow bool, deep bool) (out c13MulOut) {
 	c := e.c
 	stage := "receiver-new"
@@ -145,7 +145,7 @@ func (e *c13Env) multiply(cs c13Case, shadow bool, deep bool) (out c13MulOut) {
 		if deep {
 			mp, err := e.predictAdditiveR2(saved, choices)
 			if err != nil {
-				c.c13ModelErr("ot.masked_pad", err, cs)
+				c.c13ModelErr("ot.additive_recv_class", err, cs)
 			} else {
 				c.res.Corr(mp == addClass)
 				if mp != addClass {
